@@ -20,7 +20,9 @@ ONE arbiter while its thread is blocked inside a task, or on the system arbiter 
 released and every command must start within the watchdog: C10_AcceptedStarts), c10-overlap (two Systems alive at once
 on one OS thread, the older one is stopped and run to completion first; then tasks on the younger System's arbiters
 look at Arbiter::current() / System::current()) and c09-backlog (a worker arbiter is blocked inside a task with ~1100
-commands queued behind it when the System stop is issued; it is released afterwards and its join must return)."""
+commands queued behind it when the System stop is issued; it is released afterwards and its join must return) and
+c10-stoprace (hundreds of short attempts, executed when nothing else runs: stop() from another thread while the arbiter's
+loop is kept being polled by a yielding task, probe commands behind the stop must never start)."""
 import concurrent.futures
 import itertools
 import json
@@ -328,6 +330,16 @@ def gen_arb_backlog_scenario(rng, sid, k):
     return sc
 
 
+def gen_stoprace_scenario(rng, sid, rounds):
+    """C10: `rounds` short attempts under one System, executed when nothing else runs, each a run of its own: a fresh
+    arbiter whose loop is kept being polled by a task that yields on every turn (every other attempt it also sends a
+    no-op command to its own arbiter per turn); after a short random spin its creator, or a foreign thread through a
+    cloned handle, calls stop() and then sends 1-2 probe commands; join under a watchdog of 2 s.  A stop() that lands
+    while the loop is in the middle of a poll must end the loop like any other: the probes never start."""
+    return {"id": sid, "seed": rng.getrandbits(48), "stoprace": {"rounds": rounds, "join_ms": 2000}, "arbs": [], "stops": [],
+            "flavour": "c10-stoprace"}
+
+
 def extras(count, flavour):
     """how many scenarios of the special flavours are added on top of the `count` enumerated ones"""
     if flavour == "c09":
@@ -335,7 +347,8 @@ def extras(count, flavour):
                 "twostop": max(8, count * 4 // 100), "pinned": 2 if count <= 500 else 4,
                 "backlog": 2 if count <= 500 else 8, "rounds": max(8, count * 4 // 100)}
     return {"self": max(12, count * 12 // 100), "rounds": max(8, count * 10 // 100), "teardown": max(8, count * 4 // 100),
-            "flood": max(6, count * 2 // 100), "overlap": max(6, count * 2 // 100)}
+            "flood": max(6, count * 2 // 100), "overlap": max(6, count * 2 // 100),
+            "stoprace": 2 if count <= 500 else 4}
 
 
 def gen_scenarios(rng, count, flavour):
@@ -360,6 +373,7 @@ def gen_scenarios(rng, count, flavour):
         special += [("self", k) for k in range(ex["self"])] + [("rounds", k) for k in range(ex["rounds"])]
         special += [("teardown", k) for k in range(ex["teardown"])]
         special += [("flood", k) for k in range(ex["flood"])] + [("overlap", k) for k in range(ex["overlap"])]
+        special += [("stoprace", k) for k in range(ex["stoprace"])]
     for which, k in special:
         sid = len(out)
         if which in ("pre", "burst"):
@@ -376,6 +390,8 @@ def gen_scenarios(rng, count, flavour):
             sc = gen_flood_scenario(rng, sid, k)
         elif which == "overlap":
             sc = gen_overlap_scenario(rng, sid)
+        elif which == "stoprace":
+            sc = gen_stoprace_scenario(rng, sid, 400 if count <= 500 else 3000)
         elif which == "backlog":
             sc = gen_arb_backlog_scenario(rng, sid, k)
         else:
@@ -683,7 +699,10 @@ def flow(ctx, *, flavour, tcfg, nt_rule, nontrivial):
     ctx.cov["largest_backlog_queued_on_one_arbiter"] = max([f["n"] for f in fillers] or [0])
     ctx.cov["systems_run_after_an_older_system_of_their_thread_exited"] = sum(
         1 for r in runs if any(rec.get("ev") == "OtherSystem" for rec in r))
+    ctx.cov["stop_race_attempts"] = sum(1 for r in runs if "attempt" in r[0])
     if not rejects and not summ.get("aborted"):
+        if flavour == "c10" and ctx.cov["stop_race_attempts"] < 100:
+            raise vlib.ToolError("fewer than 100 stop-race attempts were recorded")
         for need in {"c09": ["laterStop"], "c10": ["loopEndSeen", "awaited"]}[flavour]:
             if ctx.cov["antecedent_counts"][need] == 0:
                 raise vlib.ToolError("no recorded run exercised the antecedent '%s' (driver / scenario generator drifted)" % need)
